@@ -58,7 +58,7 @@ def impl(case):
 
 
 def make_case(rng, i, tier):
-    R = rng.choice(["Float", "Float", "Real", "Boolean", "MaxTimes"])
+    R = rng.choice(["Float", "Float", "Real", "Boolean", "MaxTimes", "Lang"])
     n = rng.choice([1, 2, 3, 4, 5] if tier == "quick" else [2, 3, 4, 5, 6, 7, 8])
     shape = rng.choice(["random", "self_loops", "nested_cycles", "components", "isolated", "dag", "chain_of_cycles"])
     nodes = [f"v{k}" for k in range(n)]
@@ -103,9 +103,19 @@ def make_case(rng, i, tier):
         for e in edges:
             if e[0] in bad:
                 e[2] = e[2] / 2
+    if R in ("Float", "Real") and edges and rng.random() < 0.25:
+        # weights of both signs: an edge whose accumulated weight cancels to zero, and a negative edge
+        a0, b0, w0 = rng.choice(edges)
+        edges.append([rng.choice(nodes), rng.choice(nodes), Fraction(1, 4)])
+        edges.append([edges[-1][0], edges[-1][1], Fraction(-1, 4)])
+        edges.append([a0, b0, -w0 / 2])
+        shape += "+cancelling"
     rng.shuffle(nodes)
     b = [[q, rng.choice(W + [Fraction(1)])] for q in rng.sample(nodes, rng.randint(1, n))]
     enc = (lambda w: True) if R == "Boolean" else common.frac_str
+    if R == "Lang":
+        letters = iter("abcdefghijklmnopqrstuvwxyz" * 4)
+        enc = lambda w: [next(letters)]  # noqa: every edge / right-hand side entry gets its own one-letter language
     return {"id": i, "shape": shape, "R": R, "nodes": nodes, "edges": [[a, c, enc(w)] for a, c, w in edges], "b": [[q, enc(w)] for q, w in b]}
 
 
@@ -125,7 +135,7 @@ def run(ctx):
     for c in cases:
         for i in c["nodes"]:
             for j in c["nodes"]:
-                one = True if c["R"] == "Boolean" else "1"
+                one = True if c["R"] == "Boolean" else ([""] if c["R"] == "Lang" else "1")
                 d = {"start": [[i, one]], "stop": [[j, one]], "arcs": [[a, "", b, w] for a, b, w in c["edges"]]}
                 items.append((d, c["R"], [[]]))
                 owner.append((c["id"], i, j))
@@ -147,16 +157,19 @@ def run(ctx):
             lops.append({"op": "linear", "R": c["R"], "nodes": c["nodes"], "edges": r0["edges"], "blocks": r0["blocks"], "b": c["b"]})
             lidx.append(c)
     lean = {c["id"]: r for c, r in zip(lidx, ctx["lean"](lops))}
-    alg_add = {"Boolean": (lambda a, b: a or b), "MaxTimes": max}
+    alg_add = {"Boolean": (lambda a, b: a or b), "MaxTimes": max, "Lang": (lambda a, b: sorted(set(a) | set(b)))}
+
+    def lmul(a, b):
+        return sorted({u + v for u in a for v in b if len(u + v) <= 3})
     for c in cases:
         R = c["R"]
         add = alg_add.get(R, lambda a, b: a + b)
-        zero = False if R == "Boolean" else 0
+        zero = False if R == "Boolean" else ([] if R == "Lang" else 0)
         K = clo[c["id"]]
         tol = 1e-7 if R in ("Float", "Real") else 1e-9
         bvec = {}
         for q, w in c["b"]:
-            bvec[q] = add(bvec.get(q, zero), (bool(w) if R == "Boolean" else common.num(w)))
+            bvec[q] = add(bvec.get(q, zero), (bool(w) if R == "Boolean" else (list(w) if R == "Lang" else common.num(w))))
         for hs in hashseeds:
             res = impl_res[hs].get(c["id"])
             if res is None or "exc" in res:
@@ -208,14 +221,14 @@ def run(ctx):
                 if isinstance(ch, dict):
                     semantic.append(_viol(c, hs, name, ch))
                     continue
-                got = {(json.dumps(a), json.dumps(b)): common.num(v) for a, b, v in ch}
+                got = {(json.dumps(a), json.dumps(b)): (v if R == "Lang" else common.num(v)) for a, b, v in ch}
                 for (i, j), (o, cv) in K.items():
                     evaluations += 1
                     if not cv:
                         stats["unconverged"] += 1
                         continue
                     g = got.get((json.dumps(i), json.dumps(j)), zero)
-                    if not common.close(g, o, tol, 1e-10):
+                    if (sorted(g) != sorted(o)) if R == "Lang" else (not common.close(g, o, tol, 1e-10)):
                         semantic.append(_viol(c, hs, name, {"entry": [i, j], "impl": str(g), "sum_of_all_paths": str(o)}))
                     else:
                         traces += 1
@@ -224,19 +237,23 @@ def run(ctx):
                 if isinstance(ch, dict):
                     semantic.append(_viol(c, hs, name, ch))
                     continue
-                got = {json.dumps(a): common.num(v) for a, v in ch}
+                got = {json.dumps(a): (v if R == "Lang" else common.num(v)) for a, v in ch}
                 for k in c["nodes"]:
                     o, ok = zero, True
                     for i in c["nodes"]:
                         kv, cv = K[(i, k)] if left else K[(k, i)]
                         ok = ok and cv
                         bi = bvec.get(i, zero)
-                        term = (bi and bool(kv)) if R == "Boolean" else bi * kv
+                        if R == "Lang":
+                            term = lmul(bi, kv) if left else lmul(kv, bi)     # x = xA + b: b on the left; x = Ax + b: b on the right
+                        else:
+                            term = (bi and bool(kv)) if R == "Boolean" else bi * kv
                         o = add(o, term)
                     evaluations += 1
                     if not ok:
                         continue
-                    if not common.close(got.get(json.dumps(k), zero), o, tol, 1e-10):
+                    gk = got.get(json.dumps(k), zero)
+                    if (sorted(gk) != sorted(o)) if R == "Lang" else (not common.close(gk, o, tol, 1e-10)):
                         semantic.append(_viol(c, hs, name, {"node": k, "impl": str(got.get(json.dumps(k), zero)), "least_solution": str(o)}))
                     else:
                         traces += 1
@@ -262,18 +279,21 @@ def _same_chart(model, impl_, arity, R):
         for it in items:
             k = json.dumps(it[:arity])
             w = it[arity]
+            if R == "Lang":
+                d[k] = sorted(set(d.get(k, [])) | set(w))
+                continue
             if isinstance(w, bool):
                 d[k] = d.get(k, False) or w
             elif R == "MaxTimes":
                 d[k] = max(d.get(k, 0), common.num(w))
             else:
                 d[k] = d.get(k, 0) + common.num(w)
-        return {k: v for k, v in d.items() if v not in (0, False)}
+        return {k: v for k, v in d.items() if v not in (0, False, [])}
     a, b = canon(model), canon(impl_)
     if set(a) != set(b):
         return False, f"keys differ: only-model {sorted(set(a) - set(b))[:3]} only-impl {sorted(set(b) - set(a))[:3]}"
     for k in a:
-        if not common.close(a[k], b[k], 1e-9, 1e-12):
+        if (a[k] != b[k]) if R == "Lang" else (not common.close(a[k], b[k], 1e-9, 1e-12)):
             return False, f"{k}: model {a[k]} impl {b[k]}"
     return True, ""
 
